@@ -32,14 +32,14 @@ INPUT = V.REG.register(G.GraphQLInputObjectType, ["name", "description", "fields
 OBJECT = V.REG.register(G.GraphQLObjectType, ["name", "description", "interfaces", "fields"],
                         build=lambda name=None, description=None, interfaces=None, fields=None:
                         G.GraphQLObjectType(_name(name, "Obj"), fields if isinstance(fields, dict) and fields and all(isinstance(v, G.GraphQLField) for v in fields.values()) else {"x": G.GraphQLField(G.GraphQLInt)},
-                                            interfaces=[i for i in (interfaces or []) if isinstance(i, G.GraphQLInterfaceType)], description=_descr(description)))
+                                            interfaces=[i for i in (interfaces if isinstance(interfaces, (list, tuple)) else []) if isinstance(i, G.GraphQLInterfaceType)], description=_descr(description)))
 INTERFACE = V.REG.register(G.GraphQLInterfaceType, ["name", "description", "interfaces", "fields"],
                            build=lambda name=None, description=None, interfaces=None, fields=None:
                            G.GraphQLInterfaceType(_name(name, "Iface"), fields if isinstance(fields, dict) and fields and all(isinstance(v, G.GraphQLField) for v in fields.values()) else {"x": G.GraphQLField(G.GraphQLInt)},
-                                                  interfaces=[i for i in (interfaces or []) if isinstance(i, G.GraphQLInterfaceType)], description=_descr(description)))
+                                                  interfaces=[i for i in (interfaces if isinstance(interfaces, (list, tuple)) else []) if isinstance(i, G.GraphQLInterfaceType)], description=_descr(description)))
 UNION = V.REG.register(G.GraphQLUnionType, ["name", "description", "types"],
                        build=lambda name=None, description=None, types=None:
-                       G.GraphQLUnionType(_name(name, "U"), [t for t in (types or []) if isinstance(t, G.GraphQLObjectType)] or [G.GraphQLObjectType("Member", {"x": G.GraphQLField(G.GraphQLInt)})], description=_descr(description)))
+                       G.GraphQLUnionType(_name(name, "U"), [t for t in (types if isinstance(types, (list, tuple)) else []) if isinstance(t, G.GraphQLObjectType)] or [G.GraphQLObjectType("Member", {"x": G.GraphQLField(G.GraphQLInt)})], description=_descr(description)))
 LIST = V.REG.register(G.GraphQLList, ["of_type"], build=lambda of_type=None: G.GraphQLList(of_type))
 NONNULL = V.REG.register(G.GraphQLNonNull, ["of_type"], build=lambda of_type=None: G.GraphQLNonNull(of_type))
 
